@@ -47,7 +47,7 @@ func VerifC20Backup(h *verifh.H) {
 	targets := []string{"ns0:e2", "ns0:e3"}
 	runs := 0
 	for k := 0; k < nops; k++ {
-		op := h.Choice("op", 3)
+		op := h.Choice("op", h.Param("opKinds", 3))
 		if k == nops-1 {
 			op = 1 // histories end with a backup run (the interesting observation point)
 		}
@@ -57,16 +57,22 @@ func VerifC20Backup(h *verifh.H) {
 			v.Props["ns0:k"] = "k" + itoa(k)
 			h.Assert(ds.StoreEntities([]*Entity{mkEntity(v)}) == nil, "write")
 		case 1: // backup run, then restore and compare
-			atStart := vObsCore(h, hub, "d")
+			atStart := vObsBackup(h, hub)
 			h.Assert(!vRun(bm), "backup run completes")
 			runs++
 			rdir := h.TempDir() + "/restore" + itoa(k)
 			h.RestoreBackup(location+"/datahub-backup.kv", rdir)
 			renv := &conf.Config{Logger: env.Logger, StoreLocation: rdir, FullsyncLeaseTimeout: time.Hour, RunnerConfig: env.RunnerConfig}
 			rhub := VerifOpenHub(renv)
-			got := vObsCore(h, rhub, "d")
+			got := vObsBackup(h, rhub)
 			h.Assert(got == atStart, "the restored backup answers as the source did when the run started :: run="+itoa(runs)+" restored="+got+" source="+atStart)
 			_ = rhub.Store.Close()
+		case 3: // first use of a new namespace (one commit carrying lasting information)
+			_, err := hub.Store.NamespaceManager.AssertPrefixMappingForExpansion("http://example.com/n" + itoa(k) + "/")
+			h.Assert(err == nil, "namespace asserted")
+		case 4: // another dataset is created
+			_, err := hub.Dsm.CreateDataset("x"+itoa(k), nil)
+			h.Assert(err == nil, "create")
 		case 2: // the hub (and with it the backup manager) restarts
 			hub = hub.Restart()
 			ds = hub.Dsm.GetDataset("d")
@@ -74,6 +80,22 @@ func VerifC20Backup(h *verifh.H) {
 		}
 	}
 	h.Observe("runs", runs)
+}
+
+// vObsBackup: what a restored backup has to answer like the source: dataset d's
+// content, the dataset list and the namespace mappings.
+func vObsBackup(h *verifh.H, hub *VHub) string {
+	out := vObsCore(h, hub, "d")
+	var names []string
+	for _, n := range hub.Dsm.GetDatasetNames() {
+		names = append(names, n.Name)
+	}
+	out += " datasets=" + vJoin(vSorted(names))
+	var ns []string
+	for p, e := range hub.Store.GetGlobalContext(false).Namespaces {
+		ns = append(ns, p+"="+e)
+	}
+	return out + " ns=" + vJoin(vSorted(ns))
 }
 
 // VerifC20Cursor: the backup cursor written by StoreLastID is read back
